@@ -68,8 +68,10 @@ func (o *Overloader) PostDial(sess erpc.PreSession, isRedial bool) *erpc.Status 
 
 // PostAccept checks connection overload.
 // If overload, print error log and close the connection.
-func (o *Overloader) PostAccept(_ erpc.PreSession) *erpc.Status {
+func (o *Overloader) PostAccept(sess erpc.PreSession) *erpc.Status {
 	if o.takeConn() {
+		// remember that this session holds a slot: PostDisconnect also runs for sessions that were refused
+		sess.Swap().Store(connSlotKey{}, true)
 		return nil
 	}
 	msg := fmt.Sprintf("connection overload, limit=%d, now=%d",
@@ -79,10 +81,17 @@ func (o *Overloader) PostAccept(_ erpc.PreSession) *erpc.Status {
 }
 
 // PostDisconnect releases connection count.
-func (o *Overloader) PostDisconnect(_ erpc.BaseSession) *erpc.Status {
-	o.releaseConn()
+func (o *Overloader) PostDisconnect(sess erpc.BaseSession) *erpc.Status {
+	// release only what was taken, and only once
+	if _, ok := sess.Swap().Load(connSlotKey{}); ok {
+		sess.Swap().Delete(connSlotKey{})
+		o.releaseConn()
+	}
 	return nil
 }
+
+// connSlotKey is the session-swap key marking a session that holds a connection slot.
+type connSlotKey struct{}
 
 // PostReadCallHeader checks PULL QPS overload.
 // If overload, print error log and reply error.
